@@ -183,7 +183,9 @@ class Preservative:
             for tag, was_used in tags.items():
                 if not was_used:
                     if len(self.preserved_tags_per_file[outputfile][tag]) > 0:
-                        Lost_Code_TXT_filename = outputfile + ".LostCode.txt"
+                        # absolute: the output stage joins every key onto the output directory again,
+                        # which must not move this file away from the file the code came from.
+                        Lost_Code_TXT_filename = os.path.abspath(outputfile) + ".LostCode.txt"
                         if not Lost_Code_TXT_filename in filenames_to_lines:
                             filenames_to_lines[Lost_Code_TXT_filename] = []
                         filenames_to_lines[Lost_Code_TXT_filename].append(outputfile + "\n")
